@@ -43,6 +43,8 @@ def fmt(sig):
 
 
 def run(ctx):
+    from .configtime import no_shared_mutable_defaults as _mutdef
+    _mutdef(ctx, 'C09.R3', classes=('Recipe', 'RecipeStep'))
     from .configtime import precision_zero_is_a_value as _prec0
     _prec0(ctx, 'C09.R4', classes=('Recipe',))
     from .atomic import validate_before_mutate as _atomic
